@@ -434,7 +434,9 @@ func (c *C15Carry) Run() string {
 		mk.E[k] = m
 	}
 	desc := fmt.Sprintf("%s(perm %v specs %v) of masked %v mask %v", c.Op, c.Perm, c.Specs, c.Shape, c.Mask)
-	var res *tensor.Dense
+	var res, parent *tensor.Dense
+	parentOff := 0
+	skip := false
 	wantE, wantM := arr, mk
 	var lerr error
 	pan := try(func() {
@@ -452,6 +454,37 @@ func (c *C15Carry) Run() string {
 		case "SafeT":
 			res, lerr = t.SafeT(cloneIntsNN(c.Perm)...)
 			wantE, wantM = arr.Permute(c.Perm), mk.Permute(c.Perm)
+		case "ViewTranspose":
+			// the masked tensor is a gap-free view (rows 1.. of a parent with one more row): transposing
+			// the view for good permutes the part of the parent's storage it covers, elements and mask alike
+			pshape := append([]int{c.Shape[0] + 1}, c.Shape[1:]...)
+			inner := prod(c.Shape[1:])
+			pvals := append(seqArr(d, []int{inner}, 60).E, arr.E...)
+			pmask := make([]bool, len(pvals))
+			for i := range pmask {
+				if i < inner {
+					pmask[i] = i%2 == 0
+				} else {
+					pmask[i] = c.Mask[i-inner]
+				}
+			}
+			parent = tensor.New(tensor.WithShape(pshape...), tensor.WithBacking(mkBacking(d, pvals), pmask))
+			v, err := parent.Slice(RS{1, pshape[0], 1})
+			if err != nil {
+				lerr = err
+				return
+			}
+			vd := v.(*tensor.Dense)
+			if !eqInts([]int(vd.Shape()), c.Shape) {
+				skip = true // a single row: the library drops the axis
+				return
+			}
+			if lerr = vd.T(cloneIntsNN(c.Perm)...); lerr == nil {
+				lerr = vd.Transpose()
+			}
+			res = vd
+			wantE, wantM = arr.Permute(c.Perm), mk.Permute(c.Perm)
+			parentOff = inner
 		case "Clone":
 			res = t.Clone().(*tensor.Dense)
 		case "Materialize", "Slice":
@@ -488,6 +521,9 @@ func (c *C15Carry) Run() string {
 			}
 		}
 	})
+	if skip {
+		return inconclusive
+	}
 	if pan != "" {
 		return desc + " panicked: " + pan
 	}
@@ -519,6 +555,23 @@ func (c *C15Carry) Run() string {
 		}
 		if got != wantM.E[k].(bool) {
 			return desc + fmt.Sprintf(": mask bit at %v is %v, the element %s carried %v", cc, got, fmtVal(wantE.E[k]), wantM.E[k])
+		}
+	}
+	if parent != nil && len(wantE.E) > 1 {
+		// the parent's storage behind the view now holds the transposed array in order, and its mask with it
+		pd, pm := backingVals(parent.Data()), parent.Mask()
+		for k := range wantE.E {
+			if !bitEqVal(pd[parentOff+k], wantE.E[k]) {
+				return desc + fmt.Sprintf(": the parent's storage element %d is %s, expected %s", parentOff+k, fmtVal(pd[parentOff+k]), fmtVal(wantE.E[k]))
+			}
+			if pm[parentOff+k] != wantM.E[k].(bool) {
+				return desc + fmt.Sprintf(": the parent's mask at storage position %d is %v, but the element %s that now lives there carried %v", parentOff+k, pm[parentOff+k], fmtVal(wantE.E[k]), wantM.E[k])
+			}
+		}
+		for k := 0; k < parentOff; k++ {
+			if pm[k] != (k%2 == 0) {
+				return desc + fmt.Sprintf(": the parent's mask outside the view changed at %d", k)
+			}
 		}
 	}
 	return ""
@@ -586,7 +639,7 @@ func TestC15(t *testing.T) {
 		})
 	}
 	// masks carried through transposition, slicing and copying
-	for _, op := range []string{"T", "Transpose", "SafeT", "Slice", "Materialize", "Clone"} {
+	for _, op := range []string{"T", "Transpose", "SafeT", "Slice", "Materialize", "Clone", "ViewTranspose"} {
 		op := op
 		cell(t, "C15", "C15.carry", "carry/"+op, nCases(100, 3000), func(rt *rapid.T) Case {
 			shape := genShapeMin2(rt, 1, 3, 4, "s")
@@ -595,7 +648,7 @@ func TestC15(t *testing.T) {
 				c.Mask[i] = rapid.Bool().Draw(rt, "m")
 			}
 			switch op {
-			case "T", "Transpose", "SafeT":
+			case "T", "Transpose", "SafeT", "ViewTranspose":
 				c.Perm = genPerm(rt, len(shape), "perm")
 			case "Slice", "Materialize":
 				for i, dim := range shape {
